@@ -178,8 +178,9 @@ def parse_tlc(res):
 
 
 def tlc_error_text(res, n=3000):
-    i = res.out.find('Error:')
-    return res.out[i:i + n] if i >= 0 else res.out[-n:]
+    out = '\n'.join(l for l in res.out.splitlines() if not l.startswith('"@@'))
+    i = out.find('Error:')
+    return out[i:i + n] if i >= 0 else out[-n:]
 
 
 # --------------------------------------------------------------------------------------
